@@ -80,13 +80,19 @@ func c10Cut(e c10Enzyme, seq string, circular bool) (keys []string, panicked str
 		}
 	})
 	c10LastFragment = ""
+	c10LastRaw = c10LastRaw[:0]
 	for _, f := range frs {
 		keys = append(keys, strings.ToUpper(f.ForwardOverhang+"|"+f.Sequence+"|"+f.ReverseOverhang))
+		c10LastRaw = append(c10LastRaw, f.ForwardOverhang+"|"+f.Sequence+"|"+f.ReverseOverhang)
 		c10LastFragment = f.Sequence
 	}
 	sort.Strings(keys)
+	sort.Strings(c10LastRaw)
 	return
 }
+
+// c10LastRaw holds the fragments of the last call as poly spelled them (no case folding).
+var c10LastRaw []string
 
 func c10Keys(fr []oracle.DigestFragment) []string {
 	out := make([]string, len(fr))
@@ -418,8 +424,16 @@ func runC10(w *mon.W) {
 		w.Begin(id, fmt.Sprintf("%s circular=%v %s", e, circular, stored))
 		held := c10Judge(w, id, lay, stored, want, "layout")
 		if held && stored != lay.seq {
-			// letter case is irrelevant: the upper-case spelling must give the same multiset
+			// letter case is irrelevant: the upper-case spelling must give the same multiset, letter for letter
+			// (an overhang reported in the spelling of the input would no longer match its partner's)
+			rawStored := append([]string(nil), c10LastRaw...)
 			held = c10Judge(w, id, lay, lay.seq, want, "upper-case spelling of the same layout")
+			if held && !sameStrings(rawStored, c10LastRaw) {
+				w.Violation(id, fmt.Sprintf("letter case of the part changes the reported fragments: CutWithEnzyme(%s, circular=%v) on %q returned %s, on the upper-case spelling %s", lay.enz, lay.circular, clip(stored, 80), clip(strings.Join(rawStored, " "), 300), clip(strings.Join(c10LastRaw, " "), 300)),
+					map[string]any{"enzyme": lay.enz.String(), "sequence": stored, "circular": lay.circular})
+				held = false
+			}
+			w.Add("spellings_compared_letter_for_letter", 1)
 		}
 		if held && circular && L <= 3000 {
 			// a few random rotations of every circular layout (the sweep below is exhaustive for small ones)
